@@ -77,12 +77,21 @@ class Check(PropertyCheck):
                   "boundary and with FlowReadException otherwise (prefix_yields_complete_records_only, "
                   "partial_flow_never_returned, crash_at_any_byte); after ANY sequence of save hooks the stream file is the "
                   "concatenation of whole records and reads back cleanly as all flows written so far "
-                  "(file_is_concatenation, file_only_grows, stream_file_complete_after_each_hook). Tied to the code by "
+                  "(file_is_concatenation, file_only_grows, stream_file_complete_after_each_hook). The writer's buffer and flush points are "
+                  "inside the model (BFile = bytes handed to the OS + process buffer; write with an arbitrary spill, flush): for EVERY "
+                  "hook sequence, every buffering behaviour, every number of completed file operations and every surviving byte "
+                  "count the disk content loads as an initial segment of the written flows (crash_consistent_any_buffering, "
+                  "crash_prefix_every_hook_sequence, explicit_save_crash_consistent); at every hook boundary the OS holds the whole "
+                  "concatenation and the buffer is empty because FilteredFlowWriter.add flushes (hook_boundary_flushed, "
+                  "stream_disk_complete_after_each_hook); an explicit save is complete after close "
+                  "(explicit_save_complete_after_close); CPython's BufferedWriter.write policy is transcribed and covered "
+                  "(cpython_buffered_explicit_save) and its on-disk sizes are predicted in the tie. Tied to the code by "
                   "truncating real flow files of every flow type at every byte offset, by driving the real Save addon "
                   "through hook sequences and comparing the file after each hook, and by truncated real files.")
-    level_note = ("trusted: Lean kernel; differential tie (all offsets of sampled files, sampled hook sequences); the file "
-                  "system appends bytes in order, so a crash leaves a prefix of what was written (os/file semantics are "
-                  "assumed, not modelled); which Save hook or option update writes, keeps or restarts the file is validated by "
+    level_note = ("trusted: Lean kernel; differential tie (all offsets of sampled files, sampled hook sequences); bytes handed "
+                  "to the OS reach the file in order and survive the crash of the process (a prefix of them if the OS write itself is cut "
+                  "short) — that is the remaining assumption about the platform; the buffering layer above it is modelled (any policy), "
+                  "CPython's policy for regular files is transcribed assuming raw writes complete; which Save hook or option update writes, keeps or restarts the file is validated by "
                   "the harness against the real addon (flowfilter decides which flows match), the Lean model only knows "
                   "noop/save/done events on one file; from_state∘migrate_flow is a parameter of the "
                   "reader model and the equality of loaded flows with the written ones is validated by the harness.")
@@ -408,6 +417,19 @@ class Check(PropertyCheck):
                 seen.append(f"{res[0]}:{res[1]}")
                 if not (okk and ok2) and len(bad) < 4:
                     bad.append([off, f"read_flows_from_paths -> {end}, stream -> {res}; expected {ek} flows, boundary={on_boundary}"])
+            # FlowWriter on a buffered file without flush (what save.file does): bytes the OS holds after each add,
+            # predicted by the model's transcription of BufferedWriter.write
+            p3 = os.path.join(d, "buffered.mitm")
+            with open(p3, "wb") as fo:
+                bs = getattr(os.fstat(fo.fileno()), "st_blksize", 0)
+                B = bs if bs > 1 else io.DEFAULT_BUFFER_SIZE
+                w = mio.FlowWriter(fo)
+                on_disk = []
+                for f in flows:
+                    w.add(f); on_disk.append(os.stat(p3).st_size)
+            pybuf = {"B": B, "sizes": [b - a for a, b in zip(bounds, bounds[1:])], "disk": on_disk, "closed": os.stat(p3).st_size}
+            if pybuf["closed"] != bounds[-1] and len(bad) < 4:
+                bad.append([-1, f"explicit save holds {pybuf['closed']} bytes after close, {bounds[-1]} were written"])
             # the ReadFile addon (rfile option): what reaches the master from each truncated file
             for off, (got, end) in zip(offs, asyncio.run(readfile_counts([data[:o] for o in offs]))):
                 ek, _ = expected_at(bounds, off)
@@ -415,7 +437,7 @@ class Check(PropertyCheck):
                     bad.append([off, f"ReadFile.load_flows handed {len(got)} flows to the master and ended {end}; {ek} flows were completely written"])
         finally:
             shutil.rmtree(d, ignore_errors=True)
-        return {"bad": bad, "len": len(data), "bounds": bounds, "tie_offsets": offs, "tie_seen": seen, "data_hex": hx(data),
+        return {"bad": bad, "len": len(data), "bounds": bounds, "tie_offsets": offs, "tie_seen": seen, "data_hex": hx(data), "pybuf": pybuf,
                 "n_offsets": len(offs), "types": [f.type for f in flows]}
 
     # ---- the property ------------------------------------------------------------------------
@@ -438,6 +460,8 @@ class Check(PropertyCheck):
             if k == "trunc" and case["lo"] == 0 and case.get("hi", 0) >= 0:
                 lines = ["reset"] + [f"save {w}" for w in obs["wires"]] + ["file"]
             lines.append(f"cuts {BIG} {D_NORMAL} {'o' * n or '-'} {obs['data_hex']} {','.join(map(str, obs['tie_offsets']))}")
+            if k == "real":
+                lines.append(f"pybuf {obs['pybuf']['B']} {','.join(map(str, obs['pybuf']['sizes']))}")
             return lines
         if k == "hooks":
             lines = []
@@ -447,7 +471,9 @@ class Check(PropertyCheck):
 
     def model_obs(self, case, replies):
         k = case["k"]
-        if k in ("trunc", "real"):
+        if k == "real":
+            return {"cuts": replies[0].split(","), "pybuf": replies[1]}
+        if k == "trunc":
             out = {"cuts": replies[-1].split(",")}
             if len(replies) > 1: out["file"] = replies[-2]
             return out
@@ -458,6 +484,8 @@ class Check(PropertyCheck):
 
     def impl_view(self, case, obs):
         k = case["k"]
+        if k == "real":
+            return {"cuts": obs["tie_seen"], "pybuf": ",".join(map(str, obs["pybuf"]["disk"]))}
         if k in ("trunc", "real"):
             out = {"cuts": obs["tie_seen"]}
             if k == "trunc" and case["lo"] == 0: out["file"] = obs["data_hex"]
